@@ -96,7 +96,7 @@ def jwt_login_required(admin=False, permission: Group | None = None):
 
 def csrf_token_required(
         service: str,
-        next_url: Callable[..., str | None] = lambda: None,
+        next_url: Callable[..., str | None] = lambda *args, **kwargs: None,
         optional: bool = False):
     """
     Decorator that requires a CSRF token check to pass
